@@ -52,11 +52,14 @@ def drive(ctx, kind, strategy, body, n, seed, shrink_budget=250, reset=True):
     except Violation:
         case, fails = state["best"]
         ctx.violation(kind, case, fails)
-    except hypothesis.errors.Flaky:
+    except Exception as exc:
+        # Flaky reports and internal shrinker errors of Hypothesis must not hide a failure
+        # that was already found: report the smallest failing case seen so far.
         if state["best"] is not None:
             case, fails = state["best"]
             ctx.violation(kind, case, fails)
-            ctx.notes.append("hypothesis reported flakiness while shrinking %s" % kind)
+            ctx.notes.append("hypothesis raised %s while shrinking %s; reporting the smallest failing "
+                             "case found so far" % (type(exc).__name__, kind))
         else:
             raise
     return state["best"] is None
